@@ -328,10 +328,8 @@ fn q_h14file__brands2() {
 
 /// Track duration reported in the movie timescale: within one tick (same arithmetic as C02's
 /// h02dur, asserted for C14).
-fn h14_dur<const K: usize>() {
-    let track_ts: u32 = kani::any();
-    let movie_ts: u32 = kani::any();
-    kani::assume(track_ts >= 1 && movie_ts >= 1 && track_ts < (1 << 20) && movie_ts < (1 << 20));
+fn h14_dur<const K: usize>(track_ts: u32, movie_ts: u32) {
+    // timescales concrete per harness (see c02::h02_dur), durations symbolic < 2^20
     let cfg = track_config(Kind::Ttxt, track_ts);
     let mut tw = match VerifTrackWriter::new(1, &cfg) {
         Ok(t) => t,
@@ -367,17 +365,17 @@ fn h14_dur<const K: usize>() {
     std::mem::forget(tw);
 }
 #[kani::proof]
-#[kani::unwind(4)]
-fn q_h14dur__k1() {
-    h14_dur::<1>()
+#[kani::unwind(5)]
+fn q_h14dur__k2_ts48000_movie1000() {
+    h14_dur::<2>(48000, 1000)
 }
 #[kani::proof]
 #[kani::unwind(5)]
-fn t_h14dur__k2() {
-    h14_dur::<2>()
+fn q_h14dur__k2_ts600_movie90000() {
+    h14_dur::<2>(600, 90000)
 }
 #[kani::proof]
 #[kani::unwind(6)]
-fn t_h14dur__k3() {
-    h14_dur::<3>()
+fn t_h14dur__k3_ts24000_movie1001() {
+    h14_dur::<3>(24000, 1001)
 }
